@@ -157,7 +157,45 @@ def run(prog, rep, tier, repo):
             return ('call', FG + 'gamma', (t,), None)
         want = _comm(('bin', 'Div', ('bin', 'Mul', g(a), g(b), 'f64'), g(('bin', 'Add', a, b, 'f64')), 'f64'))
         gam = [z for r in rets for z in subterms(r) if tag(z) == 'call' and z[1] == FG + 'gamma']
-        if len(rets) == 1 and rets[0] == want:
+        sites = _sites(f)
+        mains = [sv for sv in sites if _comm(sv[0]) == want]
+        extras = [sv for sv in sites if _comm(sv[0]) != want]
+        if mains and extras:
+            # shortcut return sites next to the gamma quotient: each is compared with the quotient at points where the equality tests that
+            # select it hold (identity testing of the two closed forms; gamma = the true Gamma function)
+            wit = None
+            unread = None
+            for v, bb, gs in extras:
+                eqs = []
+                for cn in f.control_conds(bb):
+                    if tag(cn) == 'bin' and cn[1] == 'Eq' and cn[2] in (a, b) and tag(cn[3]) == 'const':
+                        eqs.append((cn[2], float(cn[3][2])))
+                if not eqs:
+                    unread = 'return site %s is not selected by equality tests on a / b' % show(v)[:40]
+                    continue
+                for var, cval in eqs:
+                    for other in (0.3, 0.5, 1.0, 2.5, 9.0):
+                        env = {a: cval, b: other} if var == a else {a: other, b: cval}
+                        try:
+                            got = _num(v, env)
+                            ref = math.gamma(env[a]) * math.gamma(env[b]) / math.gamma(env[a] + env[b])
+                        except Exception as e_:
+                            unread = 'return site %s not evaluable (%s)' % (show(v)[:40], e_)
+                            break
+                        if not (abs(got - ref) <= 1e-9 * max(1.0, abs(ref))):
+                            wit = (show(v)[:50], env[a], env[b], got, ref)
+                            break
+                    if wit or unread:
+                        break
+                if wit:
+                    break
+            if wit:
+                rep.viol('beta-wiring', key, 'the shortcut %s gives beta(%g, %g) = %.12g, Gamma(a)Gamma(b)/Gamma(a+b) = %.12g' % wit, site_of(f.body))
+            elif unread:
+                rep.undecided('beta-wiring', key, unread, site_of(f.body), proof=False)
+            else:
+                rep.ok('beta-wiring', key, 'gamma(a) * gamma(b) / gamma(a + b) with %d shortcut site(s) that agree with it where they apply' % len(extras))
+        elif len(rets) == 1 and rets[0] == want:
             rep.ok('beta-wiring', key, 'beta(a, b) = gamma(a) * gamma(b) / gamma(a + b); symmetric in (a, b) because * and + commute exactly')
         elif len(rets) == 1 and tag(rets[0]) == 'bin' and rets[0][1] == 'Div' and len(gam) == 3:
             rep.viol('beta-wiring', key, 'beta is %s, not gamma(a) gamma(b) / gamma(a + b)' % show(rets[0])[:120], site_of(f.body))
@@ -339,6 +377,42 @@ def run(prog, rep, tier, repo):
             rep.undecided('lanczos-series', key, 'series term not read: %s' % why, site_of(f.body), proof=False)
     rep.floor('lanczos-series', 1, 'gamma')
     return {}
+
+
+def _num(t, env):
+    """numeric value of a scalar term over the given leaf values (closed forms only; gamma is the true Gamma function)"""
+    if t in env:
+        return env[t]
+    k = tag(t)
+    if k == 'const':
+        return float(t[2])
+    if k == 'un' and t[1] == 'Neg':
+        return -_num(t[2], env)
+    if k == 'cast':
+        return float(_num(t[2], env))
+    if k == 'bin':
+        x_, y_ = _num(t[2], env), _num(t[3], env)
+        return {'Add': x_ + y_, 'Sub': x_ - y_, 'Mul': x_ * y_, 'Div': x_ / y_ if y_ != 0 else math.inf}[t[1]]
+    if k == 'call' and is_f64_method(t[1]):
+        n = f64_method_name(t[1])
+        xs = [_num(z, env) for z in t[2]]
+        if n in ('max', 'min'):
+            return max(xs) if n == 'max' else min(xs)
+        if n in ('sqrt', 'exp', 'sin', 'cos'):
+            return getattr(math, n)(xs[0])
+        if n == 'ln':
+            return math.log(xs[0])
+        if n == 'abs':
+            return abs(xs[0])
+        if n == 'recip':
+            return 1.0 / xs[0]
+        if n in ('powi', 'powf'):
+            return math.pow(xs[0], xs[1])
+    if k == 'call' and t[1] == FG + 'gamma':
+        return math.gamma(_num(t[2][0], env))
+    if k == 'call' and t[1] == FG + 'ln_gamma':
+        return math.lgamma(_num(t[2][0], env))
+    raise ValueError('term %s' % show(t)[:40])
 
 
 def _series_terms(t, x):
